@@ -14,18 +14,19 @@ PR = "./pkg/pdfcpu/primitives"
 PROPS = {
     "C01": dict(
         pkg=API,
-        explanation="the api *File glue (open input, stage output via O_EXCL reservation or hidden temp file, processing, deferred commit/cleanup) is executed symbolically on the interpreted file system model: path relation (in place, same string, new output, existing output, different spelling, hard link), which file system call of the operation table fails, at which call the process is killed, and the processing outcome (success, error after a partial write, panic) are all choices explored exhaustively; the same harness replays natively on the real file system",
+        explanation="the api *File glue (open input, stage output via O_EXCL reservation or hidden temp file, processing, deferred commit/cleanup) is executed symbolically on the interpreted file system model: path relation (in place, same string, new output, existing output, different spelling, hard link, symbolic link to an existing output / to the input) and the processing outcome (success, error after a partial write, panic) are forked; which file system call of the operation table fails, at which call the process is killed, the file contents and the permission bits are solver variables (every content / mode comparison is an SMT query); attachment extraction (writeAttachments: reservation, staged write, release; names incl. one whose reservation exceeds NAME_MAX, collisions) is harnessed separately; the same harness replays natively on the real file system",
         outside="operations other than the harnessed ones (one harness per wrapper family is written by hand; the generator over all 117 *File functions of DESIGN 3.4 is not built), the processing steps themselves (stubbed: they read the input, write the output, fail or panic), more than one injected fault per run, power loss (C07), CLI layer (pkg/cli)",
         assumptions=["file system contract of rt/vfs.go: failed calls change nothing, rename is atomic, O_EXCL create fails iff the name exists, CreateTemp returns a fresh name", "stub contract: processing touches nothing but its reader and writer"],
         harnesses=[dict(name="VerifOptimizeFile", bounds=dict(quick=dict(CALLS=10), thorough=dict(CALLS=12)), opts=dict(unwind=300, workers=8)),
                    dict(name="VerifMergeCreateFile", bounds=dict(quick=dict(CALLS=10), thorough=dict(CALLS=12)), opts=dict(unwind=300, workers=8)),
                    dict(name="VerifMergeAppendFile", bounds=dict(quick=dict(CALLS=10), thorough=dict(CALLS=12)), opts=dict(unwind=300, workers=8)),
                    dict(name="VerifMergeCreateZipFile", bounds=dict(quick=dict(CALLS=10), thorough=dict(CALLS=12)), opts=dict(unwind=300, workers=8)),
-                   dict(name="VerifWriteContextAbort", pkg=PD, opts=dict(unwind=300, workers=4))],
+                   dict(name="VerifWriteContextAbort", pkg=PD, opts=dict(unwind=300, workers=4)),
+                   dict(name="VerifWriteAttachments", bounds=dict(quick=dict(CALLS=14), thorough=dict(CALLS=18)), opts=dict(unwind=3000, workers=8))],
     ),
     "C02": dict(
         pkg=API,
-        explanation="the api *File glue (open input, stage output via O_EXCL reservation or hidden temp file, processing, deferred commit/cleanup) is executed symbolically on the interpreted file system model: path relation (in place, same string, new output, existing output, different spelling, hard link), which file system call of the operation table fails, at which call the process is killed, and the processing outcome (success, error after a partial write, panic) are all choices explored exhaustively; the same harness replays natively on the real file system",
+        explanation="the api *File glue (open input, stage output via O_EXCL reservation or hidden temp file, processing, deferred commit/cleanup) is executed symbolically on the interpreted file system model: path relation (in place, same string, new output, existing output, different spelling, hard link, symbolic link to an existing output / to the input) and the processing outcome (success, error after a partial write, panic) are forked; which file system call of the operation table fails, at which call the process is killed, the file contents and the permission bits are solver variables (every content / mode comparison is an SMT query); attachment extraction (writeAttachments: reservation, staged write, release; names incl. one whose reservation exceeds NAME_MAX, collisions) is harnessed separately; the same harness replays natively on the real file system",
         outside="operations other than the harnessed ones (one harness per wrapper family is written by hand; the generator over all 117 *File functions of DESIGN 3.4 is not built), the processing steps themselves (stubbed: they read the input, write the output, fail or panic), more than one injected fault per run, power loss (C07), CLI layer (pkg/cli)",
         assumptions=["file system contract of rt/vfs.go: failed calls change nothing, rename is atomic, O_EXCL create fails iff the name exists, CreateTemp returns a fresh name", "stub contract: processing touches nothing but its reader and writer"],
         harnesses=[dict(name="VerifOptimizeFile", bounds=dict(quick=dict(CALLS=10), thorough=dict(CALLS=12)), opts=dict(unwind=300, workers=8)),
@@ -36,7 +37,7 @@ PROPS = {
     ),
     "C03": dict(
         pkg=API,
-        explanation="the api *File glue (open input, stage output via O_EXCL reservation or hidden temp file, processing, deferred commit/cleanup) is executed symbolically on the interpreted file system model: path relation (in place, same string, new output, existing output, different spelling, hard link), which file system call of the operation table fails, at which call the process is killed, and the processing outcome (success, error after a partial write, panic) are all choices explored exhaustively; the same harness replays natively on the real file system",
+        explanation="the api *File glue (open input, stage output via O_EXCL reservation or hidden temp file, processing, deferred commit/cleanup) is executed symbolically on the interpreted file system model: path relation (in place, same string, new output, existing output, different spelling, hard link, symbolic link to an existing output / to the input) and the processing outcome (success, error after a partial write, panic) are forked; which file system call of the operation table fails, at which call the process is killed, the file contents and the permission bits are solver variables (every content / mode comparison is an SMT query); attachment extraction (writeAttachments: reservation, staged write, release; names incl. one whose reservation exceeds NAME_MAX, collisions) is harnessed separately; the same harness replays natively on the real file system",
         outside="operations other than the harnessed ones (one harness per wrapper family is written by hand; the generator over all 117 *File functions of DESIGN 3.4 is not built), the processing steps themselves (stubbed: they read the input, write the output, fail or panic), more than one injected fault per run, power loss (C07), CLI layer (pkg/cli)",
         assumptions=["file system contract of rt/vfs.go: failed calls change nothing, rename is atomic, O_EXCL create fails iff the name exists, CreateTemp returns a fresh name", "stub contract: processing touches nothing but its reader and writer"],
         harnesses=[dict(name="VerifOptimizeFile", bounds=dict(quick=dict(CALLS=10), thorough=dict(CALLS=12)), opts=dict(unwind=300, workers=8)),
